@@ -136,6 +136,17 @@ func (p *Proc) apiCall(verb string, res Resource, ns, name string, effect func(a
 		s.Tracef("  FAULT lostack %s by %s", desc, t.id)
 		return nil, apierrors.NewTimeoutError("furisim: injected timeout after the write was applied", 1)
 	}
+	if verb == "get" && (err == nil || apierrors.IsNotFound(err)) {
+		// a live read is part of what the sync has seen, like a cache read
+		if t.readSet == nil {
+			t.readSet = map[string]string{}
+		}
+		rv := ""
+		if err == nil && obj != nil {
+			rv = accessor(obj).GetResourceVersion()
+		}
+		t.readSet[string(res)+"/"+ns+"/"+name] = rv
+	}
 	return obj, err
 }
 
